@@ -65,6 +65,27 @@ def phdrStrings (p : Params) : List Hdr → List Hdr → List String
     let s := if v ≠ .ok && v ≠ .assert && v ≠ .panic && ctxFailCount p chain h true ≥ 2 then "reject:multi" else verdictStr v
     s :: phdrStrings p (if v = .ok then h :: chain else chain) hs
 
+def ctxStr (p : Params) (chain : List Hdr) (h : Hdr) : String :=
+  let r := checkBlockHeaderContext p chain h false
+  if r ≠ .ok && r ≠ .assert && r ≠ .panic && ctxFailCount p chain h false ≥ 2 then "reject:multi" else
+  match r with
+  | .ok => "ok" | .badDifficulty => "badDifficulty" | .timeTooOld => "timeTooOld"
+  | .timeWarp => "timeWarp" | .assert => "assert" | .panic => "panic"
+
+/-- required bits / context verdict / MTP for header `h` on `chain` -/
+def triple (p : Params) (chain : List Hdr) (h : Hdr) : String :=
+  (match calcNextRequiredDifficulty p chain h.time with | some b => hex8 b | none => "assert")
+    ++ "/" ++ ctxStr p chain h ++ "/" ++ toString (calcPastMedianTime chain)
+
+def parseItem? (s : String) : Option (Nat × Hdr) :=
+  match s.splitOn ":" with
+  | [d, t, b] => do
+    let d ← d.toNat?
+    let t ← t.toInt?
+    let b ← hexToNat? b
+    pure (d, ⟨t, b⟩)
+  | _ => none
+
 def handleNext (rest : List String) : String :=
   match parseParams? rest with
   | some (p, newTime :: hdrs) =>
@@ -169,6 +190,22 @@ def handle : List String → String
         | _ => none) with
     | some ss => ",".intercalate ((MedianTime.run MedianTime.new ss).map toString)
     | none => "bad-op"
+  | "reuse" :: rest =>
+    match parseParams? rest with
+    | some (p, items :: hdrs) =>
+      match (items.splitOn ",").mapM parseItem?, hdrs.mapM parseHdr? with
+      | some its, some hs => ",".intercalate (its.map (fun (d, h) => triple p (hs.drop d) h))
+      | _, _ => "bad-op"
+    | _ => "bad-op"
+  | "hfork" :: rest =>
+    match parseParams? rest with
+    | some (p, hb :: ht :: depth :: toks) =>
+      let main := toks.takeWhile (· != "|")
+      let side := (toks.dropWhile (· != "|")).drop 1
+      match hexToNat? hb, ht.toInt?, depth.toNat?, main.mapM parseHdr?, side.mapM parseHdr? with
+      | some hb, some ht, some d, some m, some sd => triple p (sd ++ m.drop d) ⟨ht, hb⟩
+      | _, _, _, _, _ => "bad-op"
+    | _ => "bad-op"
   | "nextn" :: rest => handleNext rest
   | "mtpn" :: ts => handleMtp ts
   | "next" :: rest => handleNext rest
